@@ -499,6 +499,11 @@ def obligations(tier):
             obs.append(Obligation(f"added-geometry-{r}-{ff}", h_added_geometry, dict(resname=r, ff=ff), group="added-geometry", time_cap=1500))
     for ff in ("parse",) if tier == "quick" else ("parse", "amber", "charmm"):
         obs.append(Obligation(f"added-water-{ff}", h_added_water, dict(ff=ff), group="added-geometry", time_cap=1500))
+    # a hydrogen finalised (or placed by a donor attempt) on an oxygen with two bonds sits at a free tetrahedral position (C14's site harness)
+    from . import c14
+
+    for kind, pre, attempt in (("water", ("H1", "LP1"), False), ("water", ("LP1", "LP2"), False), ("alcohol", ("LP1",), False), ("water", ("H1", "LP1"), True), ("alcohol", ("LP1",), True)):
+        obs.append(Obligation(f"free-position-{kind}-{'+'.join(pre)}{'-donor-attempt' if attempt else ''}", c14.h_hydrogen_site, dict(kind=kind, pre=list(pre), then_complete=False, attempt=attempt, prop="C05"), group="free-position", time_cap=1200))
     for n in (2, 3) if tier == "quick" else (2, 3, 4):
         obs.append(Obligation(f"gap-pointers-n{n}", h_gap_pointers, dict(n=n), group="gap-pointers", time_cap=1200))
     return obs
